@@ -62,3 +62,24 @@ def must_raise(site, exc_types, fn, *a, **kw):
     except Exception as e:
         raise Violation('wrong_exception_type', site, '%s: %s' % (type(e).__name__, str(e)[:200]))
     raise Violation('missing_exception', site, 'returned %r' % (type(r).__name__,))
+
+
+# The statements of C14/C15 speak of "single keys or lists of keys".  Tuples and one-shot iterators were tried as key containers
+# (a seeded change broke Density for generator keys only) but the *unchanged* PairTable already mishandles a one-shot iterator as
+# second key (listify is called once per first key), so such inputs are outside what the properties quantify over: a check that
+# generated them alarmed on the unchanged tree.  Only lists are generated; wrap_keys is kept for replaying hand-written cases.
+KEY_CONTAINERS = ['list']
+
+
+def wrap_keys(k, kc):
+    """a key that names several types may be any iterable Table.listify accepts: list, tuple, or a
+    one-shot iterator (generator / iter()); single keys are passed as they are"""
+    if not isinstance(k, list) or not kc or kc == 'list':
+        return k
+    if kc == 'tuple':
+        return tuple(k)
+    if kc == 'gen':
+        return (x for x in list(k))
+    if kc == 'iter':
+        return iter(list(k))
+    raise ValueError(kc)
